@@ -43,7 +43,9 @@ static hent_t * hfind(hent_t * h, void * key, int create) {
   mt_reject("ledger table full");
 }
 
+void mt_freelist_owner_check(int rank, int is_free, int kind);
 static void on_alloc(int kind, void * ptr, size_t size, int rank) {
+  mt_freelist_owner_check(rank, 0, kind);
   lk();
   if (kind == MVA_DESC) {
     hent_t * h = hfind(hd, ptr, 1);
@@ -98,6 +100,7 @@ static void on_alloc(int kind, void * ptr, size_t size, int rank) {
 
 static void on_free(int kind, void * ptr, size_t size, int rank) {
   char probe;
+  mt_freelist_owner_check(rank, 1, kind);
   lk();
   if (kind == MVA_DESC) {
     hent_t * h = hfind(hd, ptr, 0);
